@@ -41,7 +41,8 @@ Snippets == {"<apply><min/></apply>", "<apply><max/></apply>", "<piecewise/>", "
              "<piecewise><piece><ci>v1</ci><ci>v1</ci><ci>v1</ci></piece></piecewise>", "<piecewise><otherwise><ci>v1</ci></otherwise><otherwise><ci>v1</ci></otherwise></piecewise>",
              "<piecewise><piece><ci>v1</ci><true/></piece><piece><ci>v1</ci><false/></piece></piecewise>",
              "<apply><and/></apply>", "<apply><not/></apply>", "<apply><not/><ci>v1</ci><ci>v1</ci></apply>", "<apply><rem/><ci>v1</ci></apply>", "<apply><abs/></apply>", "<apply><sin/></apply>",
-             "<apply><sin/><ci>v1</ci><ci>v1</ci></apply>", "<apply><ci>v1</ci><ci>v1</ci></apply>", "<apply><cn cellml:units='u1'>1</cn><ci>v1</ci></apply>", "<apply><apply><plus/></apply><ci>v1</ci></apply>",
+             "<apply><sin/><ci>v1</ci><ci>v1</ci></apply>", "<apply><ci>v1</ci><ci>v1</ci></apply>", "<apply><ci>v1</ci></apply>", "<apply><cn cellml:units='u1'>1</cn></apply>",
+             "<apply><piecewise><piece><ci>v1</ci><true/></piece></piecewise></apply>", "<apply><apply><plus/><ci>v1</ci><ci>v1</ci></apply></apply>", "<apply><true/></apply>", "<apply><pi/></apply>", "<apply><cn cellml:units='u1'>1</cn><ci>v1</ci></apply>", "<apply><apply><plus/></apply><ci>v1</ci></apply>",
              "<apply><eq/><ci>v1</ci><ci>v1</ci></apply>", "<apply><lt/><ci>v1</ci></apply>", "<apply><xor/><ci>v1</ci></apply>", "<apply><plus/><ci>v1</ci><apply><eq/><ci>v1</ci><ci>v1</ci></apply></apply>",
              "<true/>", "<false/>", "<pi/>", "<exponentiale/>", "<infinity/>", "<notanumber/>", "<foo/>", "<apply><foo/><ci>v1</ci></apply>", "<semantics><ci>v1</ci></semantics>", "<lambda><bvar><ci>v1</ci></bvar><ci>v1</ci></lambda>",
              "<apply><plus/><ci>v1</ci><bvar><ci>t</ci></bvar></apply>", "<degree><ci>v1</ci></degree>", "<logbase><ci>v1</ci></logbase>", "<bvar><ci>t</ci></bvar>", "<sep/>", "<piece><ci>v1</ci><true/></piece>", "<otherwise><ci>v1</ci></otherwise>",
